@@ -135,6 +135,8 @@ EX_TREE = ["q", "q.a", "q.a.x", "q.a.x.k", "q.ab", "q.a_b", "q.a_b.x", "q.aa", "
 # the root's name recurs as a component and as a substring of components further down
 EX_TREE2 = ["a", "a.a", "a.a.a", "a.ab", "a.b", "a.b.a", "a.b.ba"]
 ALIAS_VALUES = ["A", "B.c", "x+y", "(z)", "$1", "al", "W", "v.w.", "[k]"]
+# texts that mean something to re.sub / str.format / % when used as a template instead of being copied
+TEMPLATE_LIKE = [r"$\alpha$", "shop\\utils", r"s\1", r"\g<0>", "tail\\", "{0}", "%s", "{name}"]
 
 
 def exh_shard(arg, stt, deadline) -> None:
@@ -145,6 +147,9 @@ def exh_shard(arg, stt, deadline) -> None:
             if mask % nshards != shard:
                 continue
             aliases = {tree[i]: ALIAS_VALUES[i] for i in range(n) if mask >> i & 1}
+            if tree is EX_TREE2 and aliases:
+                spec = {"tree": tree, "aliases": {k: TEMPLATE_LIKE[i % len(TEMPLATE_LIKE)] for i, k in enumerate(aliases)}, "spacing": None, "extra": {}}
+                stt.record(spec, check_case(spec), enumerated=True, sample=(mask % 31 == 3))
             for spacing in (None, 0.5):
                 spec = {"tree": tree, "aliases": aliases, "spacing": spacing, "extra": {"node_size": 10}}
                 stt.record(spec, check_case(spec), enumerated=True, sample=(mask % 97 == 5 and spacing is None))
@@ -161,7 +166,7 @@ def exh_shard(arg, stt, deadline) -> None:
 @st.composite
 def alias_maps(draw, tree):
     keys = draw(st.lists(st.sampled_from(tree), min_size=1, max_size=5, unique=True))
-    vals = draw(st.lists(st.sampled_from(ALIAS_VALUES + ["", "q", "a"]), min_size=len(keys), max_size=len(keys)))
+    vals = draw(st.lists(st.sampled_from(ALIAS_VALUES + ["", "q", "a"] + TEMPLATE_LIKE), min_size=len(keys), max_size=len(keys)))
     return dict(zip(keys, vals))
 
 
